@@ -756,11 +756,11 @@ Definition sets_json_wf (j : json) : bool :=
 Theorem not_json_roundtrip j : sets_json_wf j = true ->
   exists sets, not_unmarshal j = Some sets /\ not_marshal sets = j.
 Proof.
-  destruct j as [| | | |l|]; try discriminate. cbn [sets_json_wf]. intro H.
+  destruct j as [| | | |l| |]; try discriminate. cbn [sets_json_wf]. intro H.
   induction l as [|e l IH].
   - exists []. split; reflexivity.
   - cbn [forallb] in H. apply andb_true_iff in H. destruct H as [H1 H2].
-    destruct (IH H2) as (sets & U & M). destruct e as [| | | | |m]; try discriminate.
+    destruct (IH H2) as (sets & U & M). destruct e as [| | | | |m|]; try discriminate.
     exists (m :: sets). cbn [not_unmarshal traverse module_map_of] in *.
     rewrite (sort_kv_sorted _ H1), U. split; [reflexivity|].
     unfold not_marshal in *. cbn [map]. now inversion M.
@@ -771,4 +771,72 @@ Theorem not_struct_roundtrip sets : forallb keys_sorted sets = true ->
 Proof.
   intro H. unfold not_marshal, not_unmarshal. rewrite (traverse_map _ JObj (fun s => s)); [now rewrite map_id|].
   apply forallb_Forall in H. eapply Forall_impl; [|exact H]. intros s Hs. cbn. now rewrite sort_kv_sorted.
+Qed.
+
+(* MatchTLS / MatchQUIC: UnmarshalJSON decodes the object into a caddy.ModuleMap, MarshalJSON encodes
+   the map; MatchHTTP: caddyhttp.RawMatcherSets = []caddy.ModuleMap, the same encoding as "not" *)
+Definition tls_unmarshal (j : json) : option (list (string * json)) := module_map_of j.
+Definition tls_marshal (m : list (string * json)) : json := JObj m.
+Definition http_unmarshal := not_unmarshal.
+Definition http_marshal := not_marshal.
+
+Theorem tls_json_roundtrip j :
+  match j with JObj m => keys_sorted m | _ => false end = true ->
+  exists m, tls_unmarshal j = Some m /\ tls_marshal m = j.
+Proof.
+  destruct j as [| | | | |m|]; try discriminate. intro H. exists m.
+  unfold tls_unmarshal, module_map_of. now rewrite sort_kv_sorted.
+Qed.
+Theorem tls_struct_roundtrip m : keys_sorted m = true -> tls_unmarshal (tls_marshal m) = Some m.
+Proof. intro H. unfold tls_unmarshal, tls_marshal, module_map_of. now rewrite sort_kv_sorted. Qed.
+
+(* ------------------------------------------------------------------ server numbering *)
+Lemma leb_refl s : String.leb s s = true.
+Proof. destruct (String.leb_total s s); assumption. Qed.
+
+Lemma assoc_insert_kv {V} k k' (v : V) l :
+  assoc k (insert_kv k' v l) = if String.eqb k k' then Some v else assoc k l.
+Proof.
+  induction l as [|[k2 v2] l IH]; [reflexivity|].
+  cbn [insert_kv]. destruct (String.leb k' k2) eqn:L; [reflexivity|].
+  cbn [assoc]. rewrite IH. destruct (String.eqb k k') eqn:E1; [|reflexivity].
+  destruct (String.eqb k k2) eqn:E2; [|reflexivity].
+  apply String.eqb_eq in E1, E2. subst k' k2. rewrite leb_refl in L. discriminate.
+Qed.
+
+Lemma assoc_sort_kv {V} k (l : list (string * V)) : assoc k (sort_kv l) = assoc k l.
+Proof.
+  induction l as [|[k' v] l IH]; [reflexivity|].
+  cbn [sort_kv assoc]. now rewrite assoc_insert_kv, IH.
+Qed.
+
+Lemma print_N_inj a b : print_N a = print_N b -> a = b.
+Proof. intro H. pose proof (parse_print_N a) as Pa. rewrite H, parse_print_N in Pa. now inversion Pa. Qed.
+
+Lemma assoc_number_servers (l : list json) : forall start i,
+  assoc ("srv" ++ print_N (start + N.of_nat i))%string (number_servers start l) = nth_error l i.
+Proof.
+  induction l as [|s l IH]; intros start i; [now destruct i|].
+  cbn [number_servers assoc]. destruct i as [|i].
+  - cbn [N.of_nat nth_error]. rewrite N.add_0_r, String.eqb_refl. reflexivity.
+  - cbn [nth_error].
+    destruct (String.eqb ("srv" ++ print_N (start + N.of_nat (S i))) ("srv" ++ print_N start)) eqn:E.
+    + apply String.eqb_eq in E. cbn [String.append] in E. inversion E as [E']. apply print_N_inj in E'. lia.
+    + rewrite <- (IH (start + 1)%N i). do 3 f_equal. lia.
+Qed.
+
+Definition jget (k : string) (j : json) : option json := match j with JObj l => assoc k l | _ => None end.
+(* the server object the adapted configuration holds under "srv<i>" *)
+Definition adapted_server (j : json) (i : N) : option json :=
+  a <- jget "apps" j ;; l <- jget "layer4" a ;; s <- jget "servers" l ;; jget ("srv" ++ print_N i)%string s.
+
+Lemma adapted_server_numbered (servers : list json) i s :
+  nth_error servers i = Some s ->
+  adapted_server (JObj [("apps", JObj [("layer4",
+     JObj (omit [("servers", o_obj (sort_kv (number_servers 0 servers)))]))])]) (N.of_nat i) = Some s.
+Proof.
+  intro H. pose proof (assoc_number_servers servers 0 i) as A. rewrite N.add_0_l, H in A.
+  rewrite <- assoc_sort_kv in A. unfold adapted_server. cbn [jget assoc String.eqb Ascii.eqb Bool.eqb obind].
+  destruct (sort_kv (number_servers 0 servers)) eqn:E; [discriminate A|].
+  cbn [o_obj omit jget assoc String.eqb Ascii.eqb Bool.eqb obind]. exact A.
 Qed.
